@@ -208,7 +208,7 @@ PlainRecvF(x, timeout, arb0, sym0) ==
 (***************************************************************************)
 (* harness: requests (VReq), listener (VListener), doSubmit                *)
 (***************************************************************************)
-Trunc40(sl) == IF Len(sl) > 40 THEN SubSeq(sl, 1, 40) ELSE sl
+Trunc40(sl) == IF Len(sl) > 272 THEN SubSeq(sl, 1, 272) ELSE sl   \* the harness keeps up to 272 bytes of a result (name kept)
 (* VReq::notify *)
 NotifyF(x, r, res, slave) ==
   LET restart == ReqKind(r) = 2 /\ x.s.rrestarts[r + 1] > 0 /\ res = RC_OK
